@@ -251,6 +251,12 @@ Print Assumptions C17_csa.
 Example C17_csa_ex : csa_result (csa_run (map (bits_of_N 4) [9; 8; 15; 3])) = 3.
 Proof. vm_compute. reflexivity. Qed.
 
+Theorem C17_adder : forall (w : N) (ops : list N),
+  ops <> [] -> Forall (fun a => a < 2 ^ w) ops ->
+  adder_run w ops = fold_right N.add 0 ops mod 2 ^ w.
+Proof. exact adder_correct. Qed.
+Print Assumptions C17_adder.
+
 Theorem C17_add_carry_save : forall a b c : bits,
   length a = length b -> length b = length c ->
   let '(s, cy) := add_carry_save a b c in
@@ -294,6 +300,62 @@ Theorem C17_counter_dyn : forall (w rv e value : N) (inc dec load : bool) (lv : 
   /\ counter_lastv (counter_cfg_dyn w rv false) e = e - 1.
 Proof. exact counter_dyn_correct. Qed.
 Print Assumptions C17_counter_dyn.
+
+(* usage variants: which of inc() / dec() the design calls (inc only / dec only / both / neither)
+   and under which call-site conditions (counter_eff: plain IF, unconditional, nested IF, IF/ELSE,
+   several call sites).  One step of every variant = the modulo counter driven by the call-site
+   conditions; "neither" = inc tied high. *)
+Theorem C17_counter_end_use : forall (e rv v : N) (u : counter_use) (inc dec en load : bool) (lv : N),
+  2 <= e -> v < e ->
+  let eff := counter_eff u inc dec en in
+  counter_next (counter_cfg_end e rv (counter_never u)) e v (fst eff) (snd eff) load lv
+  = counter_spec e v (fst eff || counter_never u) (snd eff) load lv.
+Proof. exact counter_end_use. Qed.
+Print Assumptions C17_counter_end_use.
+
+Theorem C17_counter_w_use : forall (w rv v : N) (u : counter_use) (inc dec en load : bool) (lv : N),
+  1 <= w -> v < 2 ^ w ->
+  let eff := counter_eff u inc dec en in
+  counter_next (counter_cfg_w w rv (counter_never u)) (2 ^ w) v (fst eff) (snd eff) load lv
+  = counter_spec (2 ^ w) v (fst eff || counter_never u) (snd eff) load lv.
+Proof. exact counter_w_use. Qed.
+Print Assumptions C17_counter_w_use.
+
+Theorem C17_counter_dyn_use : forall (w rv e v : N) (u : counter_use) (inc dec en load : bool) (lv : N),
+  1 <= w -> 1 <= e -> e < 2 ^ w -> v < e ->
+  let eff := counter_eff u inc dec en in
+  counter_next (counter_cfg_dyn w rv (counter_never u)) e v (fst eff) (snd eff) load lv
+  = counter_spec e v (fst eff || counter_never u) (snd eff) load lv.
+Proof. exact counter_dyn_use. Qed.
+Print Assumptions C17_counter_dyn_use.
+
+(* closed form of the four binding variants: up-only and DOWN-ONLY counters hold when idle *)
+Theorem C17_counter_end_variants : forall (e rv v : N) (inc dec load : bool) (lv : N),
+  2 <= e -> v < e ->
+  let nx := fun bi bd =>
+    let u := {| cu_inc := bi; cu_dec := bd; cu_scope := 0; cu_ldkind := 1 |} in
+    counter_next (counter_cfg_end e rv (counter_never u)) e v
+                 (fst (counter_eff u inc dec false)) (snd (counter_eff u inc dec false)) load lv in
+  nx true false = (if load then lv else if inc then (v + 1) mod e else v) /\
+  nx false true = (if load then lv else if dec then (v + e - 1) mod e else v) /\
+  nx true true = counter_spec e v inc dec load lv /\
+  nx false false = (if load then lv else (v + 1) mod e).
+Proof. exact counter_end_variants. Qed.
+Print Assumptions C17_counter_end_variants.
+Example C17_counter_deconly_ex :
+  let u := {| cu_inc := false; cu_dec := true; cu_scope := 0; cu_ldkind := 0 |} in
+  counter_next (counter_cfg_end 5 0 (counter_never u)) 5 3 false false false 0 = 3 /\
+  counter_next (counter_cfg_end 5 0 (counter_never u)) 5 0 false true false 0 = 4.
+Proof. vm_compute. split; reflexivity. Qed.
+
+Theorem C17_counter_end_use_run : forall (e rv : N) (u : counter_use) (value : N) (raw : list (bool * bool * bool * bool * N)),
+  2 <= e -> value < e -> rv < e ->
+  Forall (fun '(_, _, _, _, lv) => lv < e) raw ->
+  let c := counter_cfg_end e rv (counter_never u) in
+  let tr := map (fun '(inc, dec, en, load, lv) => counter_use_in c u inc dec en load lv e) raw in
+  counter_run c value tr = counter_use_spec_run e (counter_never u) value tr.
+Proof. exact counter_end_use_run. Qed.
+Print Assumptions C17_counter_end_use_run.
 
 (* auto-increment mode = the inc input tied high *)
 Theorem C17_counter_never : forall (c : counter_cfg) (e value : N) (load : bool) (lv : N),
